@@ -47,22 +47,28 @@ def _corrupt_size(e):
     return None
 
 
-def binding_selftest(trace, name, corrupt, want=40):
-    """Demonstrates the binding: corrupt one logged field in `want` lines and require
-    the trace spec to reject exactly those lines. Failure is a tool error."""
+def binding_selftest(trace, name, corrupt, want=40, skip=()):
+    """Demonstrates the binding: corrupt one logged field in `want` lines THAT WERE ACCEPTED (`skip`:
+    the line numbers the real validation rejected - corrupting a wrong line may make it right) and
+    require the trace spec to reject exactly those lines. Failure is a tool error."""
     wd = vlib.workdir("self-" + name)
+    skip = set(skip)
     try:
         path = os.path.join(wd, "corrupt.ndjson")
         n = 0
         with open(trace) as f, open(path, "w") as g:
-            for line in f:
+            for ln, line in enumerate(f, 1):
                 if n >= want:
                     break
+                if ln in skip:
+                    continue
                 c = corrupt(json.loads(line))
                 if c is not None:
                     g.write(json.dumps(c) + "\n")
                     n += 1
         if n == 0:
+            if skip:
+                return 0
             raise vlib.ToolError("binding self-test: nothing to corrupt in %s" % name)
         total, mism, _ = vlib.tlc_validate(path, "self-" + name, parallel=1)
         if len(mism) != n:
@@ -126,7 +132,11 @@ def codec_check(pid, tier, suites, mc_cfgs, level_note, case_of, corrupt, profil
                 if len(mism) > 2000:
                     log("(%d further mismatches not individually reported)" % (len(mism) - 2000))
                 if selftested == 0:
-                    selftested = binding_selftest(trace, pid, corrupt)
+                    try:
+                        selftested = binding_selftest(trace, pid, corrupt, skip=mism)
+                    except vlib.ToolError:
+                        if not verdict.violations:
+                            raise       # (a violation already found is never hidden behind a tool error)
         cov["distinct_events"] = distinct_total
         cov["binding_selftest_lines_rejected"] = selftested
         if extra_cov:
@@ -377,10 +387,21 @@ def e2e_check(pid, tier, scenarios, trace_spec, corrupt, note, mc_cfgs=(), threa
                                       "runtime_threads": th})
             if run == 0:
                 cov["samples"] = [vlib._shorten(scenarios[0], 12)] + vlib.sample_lines(trace, 3)
-                n = e2e_selftest(trace, pid, trace_spec, corrupt)
+                try:
+                    n = e2e_selftest(trace, pid, trace_spec, corrupt,
+                                     skip={starts[ln].get("scn") for ln in mism})
+                except vlib.ToolError:
+                    if not verdict.violations:
+                        raise           # (a violation already found is never hidden behind a tool error)
+                    n = 0
                 cov["binding_selftest_scenarios_rejected"] = n
             if mech and os.path.exists(raw + ".mech"):
-                m = mechanism_binding(pid, raw + ".mech", selftest=(run == 0))
+                try:
+                    m = mechanism_binding(pid, raw + ".mech", selftest=(run == 0))
+                except vlib.ToolError:
+                    if not verdict.violations:
+                        raise
+                    continue
                 prev = cov.get("mechanism_trace")
                 if prev:
                     for k in ("connections", "events", "accepted_connections", "states"):
@@ -428,8 +449,9 @@ def scenario_history(trace, name):
     return out
 
 
-def e2e_selftest(trace, pid, trace_spec, corrupt, want=6):
-    """Corrupt one observed field in up to `want` scenarios; each must be rejected."""
+def e2e_selftest(trace, pid, trace_spec, corrupt, want=6, skip=()):
+    """Corrupt one observed field in up to `want` scenarios that were accepted (`skip`: names of the
+    scenarios the real validation rejected); each must be rejected."""
     wd = vlib.workdir("self-" + pid)
     try:
         path = os.path.join(wd, "corrupt.ndjson")
@@ -439,7 +461,7 @@ def e2e_selftest(trace, pid, trace_spec, corrupt, want=6):
                 e = json.loads(line)
                 cur.append(e)
                 if e.get("ev") == "end":
-                    if n < want:
+                    if n < want and e.get("scn") not in skip:
                         c = corrupt(cur)
                         if c is not None:
                             for x in c:
@@ -447,6 +469,8 @@ def e2e_selftest(trace, pid, trace_spec, corrupt, want=6):
                             n += 1
                     cur = []
         if n == 0:
+            if skip:
+                return 0
             raise vlib.ToolError("binding self-test: nothing to corrupt for %s" % pid)
         total, mism, _ = vlib.tlc_validate(path, "self-" + pid, spec=trace_spec, cfg="E2E.cfg",
                                            chunk_lines=10**9, parallel=1)
@@ -964,15 +988,18 @@ def tls_check(pid, tier, suites, mc_cfgs, note, corrupt, extra_e2e=None):
             if selftested == 0:
                 path = os.path.join(wd, "corrupt.ndjson")
                 n = 0
+                rejected = set(mism)
                 with open(trace) as f, open(path, "w") as g:
-                    for line in f:
+                    for ln, line in enumerate(f, 1):
+                        if ln in rejected:
+                            continue        # (corrupting a line the validation rejected may make it right)
                         c = corrupt(json.loads(line))
                         if c is not None and n < 20:
                             g.write(json.dumps(c) + "\n")
                             n += 1
                 if n:
                     _, m2, _ = vlib.tlc_validate(path, "self-" + pid, spec="TlsTrace.tla", cfg="TlsTrace.cfg", parallel=1)
-                    if len(m2) != n:
+                    if len(m2) != n and not verdict.violations:
                         raise vlib.ToolError("binding self-test failed for %s: %d corrupted, %d rejected" % (pid, n, len(m2)))
                     selftested = n
         cov["binding_selftest_lines_rejected"] = selftested
